@@ -75,6 +75,11 @@ def _build(d):
             names.append({'name': 'Nm%d' % j, 'addr': d.choice(cand)})
         if d.pick(2):
             names.append({'name': 'NmRange', 'range': 'Sheet1!A1:B2'})
+            # a formula that uses the names (so the named range is actually
+            # evaluated before some of the persists)
+            model['formulas']['Sheet1!F1'] = ['op', '+', ['call', 'SUM', [
+                ['ref', 'NmRange']]], ['ref', names[0]['name']]]
+            model['order'].append('Sheet1!F1')
     hist = []
     cells = model['order'] + sorted(model['inputs'])
     for _ in range(d.pick(7)):
